@@ -32,6 +32,7 @@ DEFAULT_PROFILE = {
     "n_objectives": (0, 0),
     "p_calendar": 0.0,
     "logic_depth": 2,
+    "p_indicator_bounds": 0.0,
 }
 
 TASK_CONSTRAINT_KINDS = ["TaskStartAt", "TaskStartAfter", "TaskEndAt", "TaskEndBefore", "TaskPrecedence", "TasksStartSynced",
@@ -97,10 +98,11 @@ class Gen:
                 t["min"] = rng.choice([0, 0, 1, 1, 2])
                 if rng.random() < 0.7:
                     t["max"] = max(1, t["min"] + rng.randint(0, 3))
-                if rng.random() < 0.2:
-                    base = t["min"] if t["min"] > 0 else 1
-                    hi = t.get("max") or base + 3
-                    t["allowed"] = sorted(set(rng.randint(base, max(base, hi)) for _ in range(2)))
+                if rng.random() < 0.25:
+                    # allowed durations are drawn independently of min/max: values below the
+                    # minimum or above the maximum must still be excluded by the other rule
+                    hi = (t.get("max") or t["min"] + 3) + 2
+                    t["allowed"] = sorted(set(rng.randint(1, hi) for _ in range(rng.choice([1, 2, 2, 3]))))
                 total += t.get("max") or t["min"] + 2
             else:
                 t["kind"] = "fixed"
@@ -187,22 +189,37 @@ class Gen:
         for i in range(nb):
             b = {"id": f"b{i+1}", "concurrent": rng.random() < 0.4}
             r = rng.random()
+            lvl = rng.choice([0, 0, 1, 2, 3, 5, 8, -2, -4])
             if r < 0.6:
-                b["initial"] = rng.randint(0, 8)
+                b["initial"] = lvl
             elif r < 0.8:
-                b["final"] = rng.randint(0, 8)
+                b["final"] = lvl
             else:
-                b["initial"] = rng.randint(0, 8)
+                b["initial"] = lvl
                 b["final"] = rng.randint(0, 8)
             if rng.random() < 0.4:
-                b["lower"] = rng.randint(0, 2)
+                b["lower"] = rng.choice([0, 0, 1, 2, -1, -3, lvl - 2])
             if rng.random() < 0.4:
-                b["upper"] = rng.randint(6, 12)
+                b["upper"] = rng.choice([0, 1, 3, 6, 9, 12, lvl, lvl + 2])
             spec["buffers"].append(b)
             users = rng.sample(spec["tasks"], min(len(spec["tasks"]), rng.randint(1, 4)))
+            net = 0
             for t in users:
                 kind = rng.choice(["TaskLoadBuffer", "TaskUnloadBuffer"])
-                spec["constraints"].append({"id": self.cid("bf"), "kind": kind, "task": t["id"], "buffer": b["id"], "quantity": rng.randint(1, 4)})
+                q = rng.randint(1, 4)
+                spec["constraints"].append({"id": self.cid("bf"), "kind": kind, "task": t["id"], "buffer": b["id"], "quantity": q})
+                if not t.get("optional"):
+                    net += q if kind == "TaskLoadBuffer" else -q
+            # mostly consistent levels (a random final level is almost always infeasible)
+            if b.get("initial") is not None and b.get("final") is not None and rng.random() < 0.75:
+                b["final"] = b["initial"] + net
+            if b.get("lower") is not None and b.get("initial") is not None and rng.random() < 0.7:
+                b["lower"] = min(b["lower"], b["initial"] + min(net, 0), b["initial"])
+                if b["lower"] < 0 and rng.random() < 0.5:
+                    b["initial"] -= b["lower"]
+                    if b.get("final") is not None:
+                        b["final"] -= b["lower"]
+                    b["lower"] = 0
         # ---- constraints ----
         kinds = list(p["constraints"])
         if kinds:
@@ -523,9 +540,34 @@ class Gen:
                 u = rng.choice([x for x in ts if x != t])
                 e = [rng.choice(["+", "-"]), e, ["*", rng.randint(1, 3), [rng.choice(["s", "e"]), u]]]
             i["expr"] = e
+            if rng.random() < self.p.get("p_indicator_bounds", 0.0) and spec.get("horizon") is not None:
+                # truthful (outer) bounds of the expression over [0, horizon]
+                lo, hi = self._expr_range(e, spec["horizon"])
+                i["bounds"] = [lo, hi]
         else:
             raise ValueError(kind)
         return i
+
+    def _expr_range(self, e, H):
+        """outer bounds of an arithmetic spec expression when every task time lies in [0, H]
+        (start of a task with a fixed duration d: [release, H - d])"""
+        if isinstance(e, int):
+            return e, e
+        op = e[0]
+        if op in ("s", "e"):
+            t = next(x for x in self.spec["tasks"] if x["id"] == e[1])
+            d = t.get("duration") or t.get("min", 0) or 0
+            rel = t.get("release") or 0
+            return (rel, H - d) if op == "s" else (rel + d, H)
+        a, b = self._expr_range(e[1], H), self._expr_range(e[2], H)
+        if op == "+":
+            return a[0] + b[0], a[1] + b[1]
+        if op == "-":
+            return a[0] - b[1], a[1] - b[0]
+        if op == "*":
+            c = [a[0] * b[0], a[0] * b[1], a[1] * b[0], a[1] * b[1]]
+            return min(c), max(c)
+        raise ValueError(e)
 
     def gen_objective(self, kind):
         rng = self.rng
